@@ -386,11 +386,12 @@ def generic_check(pid, tier, seed, gens, driver, monitor, note, assumptions, lev
 def c09(pid, tier, seed):
     q = tier == "quick"
     allgaps = {1, 7, 1000, 15000, 3600000, 259200000}
-    gens = [("steady_e3", "MC_Estimator", dict(D=3 if q else 4, Mode="steady", GapMs=allgaps, StepSet={"1"}, RatePerMs=1, BigStart=False), "bfs"),
-            ("steady_e6", "MC_Estimator", dict(D=3 if q else 4, Mode="steady", GapMs=allgaps, StepSet={"1"}, RatePerMs=1000, BigStart=False), "bfs"),
-            ("steady_big", "MC_Estimator", dict(D=3 if q else 4, Mode="steady", GapMs={1, 7, 1000, 15000}, StepSet={"1"}, RatePerMs=1, BigStart=True), "bfs"),
-            ("free", "MC_Estimator", dict(D=3 if q else 4, Mode="free", GapMs={1, 1000, 15000, 259200000}, StepSet={"1", "e6", "e9"}, RatePerMs=1, BigStart=False), "bfs"),
-            ("free_deep", "MC_Estimator", dict(D=14, Mode="free", GapMs=allgaps, StepSet={"1", "e3", "e6", "e9"}, RatePerMs=1, BigStart=False), ("sim", 400 if q else 4000, 16))]
+    gens = [("steady_e3", "MC_Estimator", dict(D=3 if q else 4, Mode="steady", GapMs=allgaps, StepSet={"1"}, RatePerMs=1, BigStart=False, NearEnd=False), "bfs"),
+            ("steady_e6", "MC_Estimator", dict(D=3 if q else 4, Mode="steady", GapMs=allgaps, StepSet={"1"}, RatePerMs=1000, BigStart=False, NearEnd=False), "bfs"),
+            ("steady_big", "MC_Estimator", dict(D=3 if q else 4, Mode="steady", GapMs={1, 7, 1000, 15000}, StepSet={"1"}, RatePerMs=1, BigStart=True, NearEnd=False), "bfs"),
+            ("steady_nearend", "MC_Estimator", dict(D=3, Mode="steady", GapMs={1, 7, 1000}, StepSet={"1"}, RatePerMs=1, BigStart=False, NearEnd=True), "bfs"),
+            ("free", "MC_Estimator", dict(D=3 if q else 4, Mode="free", GapMs={1, 1000, 15000, 259200000}, StepSet={"1", "e6", "e9"}, RatePerMs=1, BigStart=False, NearEnd=False), "bfs"),
+            ("free_deep", "MC_Estimator", dict(D=14, Mode="free", GapMs=allgaps, StepSet={"1", "e3", "e6", "e9"}, RatePerMs=1, BigStart=False, NearEnd=False), ("sim", 400 if q else 4000, 16))]
     return generic_check(pid, tier, seed, gens, "est", "Trace_Estimator",
                          "timed histories of updates (gaps 1 ms .. 3 days, steps 1 .. 10^9), stalls, reset_eta/reset/backwards seeks, finish, unset_length with a query after every step; "
                          "laws: finite and non-negative, steady rate exact (1e-6), upper bound by the largest segment rate, monotone decay while stalled and below 1e-6 of the peak after ten minutes, "
